@@ -63,6 +63,7 @@ func c15Short(s string, n int) string {
 func runC15(c *ctx) {
 	c.res.Rule = "generated CBOR trees / messages / exponents / scalar and point byte strings (boundary lengths and values); " +
 		"real results of FROST, FROST-Taproot, Doerner and CMP sessions; every single-node corruption of their CBOR trees + random flips/truncations; " +
+		"cmp.Config: a catalogue of crafted primes / moduli / Pedersen parameters (c15_crafted.go); " +
 		"non-trivial = the case exercises a codec on a non-empty input; distinct by input bytes"
 	if c.replay != "" {
 		c.c15ReplayRun()
@@ -80,6 +81,7 @@ func runC15(c *ctx) {
 	mats := c.c15Sessions()
 	c.c15CorruptAll(mats)
 	c.c15Witnesses(mats)
+	c.c15Crafted(mats)
 }
 
 // ---------------------------------------------------------------------------------------------
